@@ -1276,6 +1276,7 @@ impl Exec {
                                     self.items.insert(v, i);
                                 }
                             }
+                            self.nontrivial.insert(fnv1a(&format!("tput {} {} {} {}", v, i, self.item_kind, self.table.num_buckets())));
                             if self.table.value(i) != &it {
                                 self.fail(&["C17"], format!("cell {} does not hold the value just put", i));
                             }
@@ -1334,6 +1335,10 @@ impl Exec {
                     Some((k2, v)) if *k2 == k => Some(*v),
                     _ => None,
                 };
+                if self.cache_shadow.contains_key(&slot) {
+                    // non-trivial lookup: the slot is occupied (hit, or a colliding key)
+                    self.nontrivial.insert(fnv1a(&format!("cget {:?} {:?} {}", k, self.cache_shadow.get(&slot).map(|e| e.0), self.cache.num_slots())));
+                }
                 if got != want {
                     self.fail(&["C18"], format!("get({:?}) = {:?}, the last insert on its slot since the last clear says {:?}", k, got, want));
                 }
@@ -1383,6 +1388,7 @@ impl Exec {
                 let v: u64 = toks[2].parse().unwrap();
                 let r = catch_unwind(AssertUnwindSafe(|| self.raw.insert(hk(k), |p| p.0 == k, (k, v))));
                 r.map(|x| {
+                    self.nontrivial.insert(fnv1a(&format!("rins {} {} {} {}", k, x.is_ok(), self.raw_kind, self.raw_shadow.len())));
                     let was = self.raw_shadow.insert(k, v);
                     match x {
                         Ok(i) => {
@@ -1404,6 +1410,7 @@ impl Exec {
                 let k: u64 = toks[1].parse().unwrap();
                 let r = catch_unwind(AssertUnwindSafe(|| self.raw.get(hk(k), |p| p.0 == k).map(|p| p.1)));
                 r.map(|x| {
+                    self.nontrivial.insert(fnv1a(&format!("rget {} {:?} {} {}", k, x.is_some(), self.raw_kind, self.raw_shadow.len())));
                     if x != self.raw_shadow.get(&k).copied() {
                         self.fail(&["C19"], format!("get({}) = {:?}, a map says {:?}", k, x, self.raw_shadow.get(&k)));
                     }
@@ -1438,6 +1445,7 @@ impl Exec {
                 let k: u64 = toks[1].parse().unwrap();
                 let r = catch_unwind(AssertUnwindSafe(|| self.raw.remove(hk(k), |p| p.0 == k).map(|p| p.1)));
                 r.map(|x| {
+                    self.nontrivial.insert(fnv1a(&format!("rrem {} {:?} {} {}", k, x.is_some(), self.raw_kind, self.raw_shadow.len())));
                     let want = self.raw_shadow.remove(&k);
                     if x != want {
                         self.fail(&["C19"], format!("remove({}) = {:?}, a map says {:?}", k, x, want));
